@@ -5,6 +5,7 @@ import (
 	"errors"
 	"io"
 	"math"
+	"strconv"
 	"strings"
 	"time"
 
@@ -122,6 +123,7 @@ func mapVal(tok string) any {
 	pfive := &five
 	var nilStr *string
 	seven := 7
+	pseven := &seven
 	var nilInt *int
 	switch tok {
 	case "int":
@@ -141,9 +143,13 @@ func mapVal(tok string) any {
 	case "ptrptr":
 		return &pfive
 	case "intptr":
-		return &seven
+		return pseven
 	case "intptr-nil":
 		return nilInt
+	case "intptrptr":
+		return &pseven
+	case "intptrptr-nil":
+		return &nilInt
 	case "map":
 		return map[string]any{"inner": "x"}
 	case "slice":
@@ -310,6 +316,37 @@ func (d *cfgDecoder) DecodeString(s string) error {
 	return nil
 }
 
+// StringDecoder implemented with a VALUE receiver on a struct, a named map and a named slice type
+type cfgVDecoder struct{ V string }
+
+func (d cfgVDecoder) DecodeString(s string) error {
+	if s == "bad" || s == "" {
+		return errors.New("refused")
+	}
+	return nil
+}
+
+type cfgVMap map[string]string
+
+func (m cfgVMap) DecodeString(s string) error {
+	if s == "bad" || s == "" {
+		return errors.New("refused")
+	}
+	if m != nil {
+		m["v"] = s
+	}
+	return nil
+}
+
+type cfgVSlice []string
+
+func (l cfgVSlice) DecodeString(s string) error {
+	if s == "bad" || s == "" {
+		return errors.New("refused")
+	}
+	return nil
+}
+
 type cfgNested struct {
 	Inner string `mapstructure:"inner"`
 }
@@ -333,6 +370,11 @@ type cfgTarget struct {
 	Time       time.Time         `mapstructure:"time"`
 	Decoder    cfgDecoder        `mapstructure:"decoder"`
 	DecoderPtr *cfgDecoder       `mapstructure:"decoderptr"`
+	VDecoder       cfgVDecoder  `mapstructure:"vdecoder"`
+	VDecoderPtr    *cfgVDecoder `mapstructure:"vdecoderptr"`
+	VMapDecoder    cfgVMap      `mapstructure:"vmapdecoder"`
+	VSliceDecoder  cfgVSlice    `mapstructure:"vslicedecoder"`
+	VMapDecoderPtr *cfgVMap     `mapstructure:"vmapdecoderptr"`
 	IntPtr     *int              `mapstructure:"intptr"`
 	StringPtr  *string           `mapstructure:"stringptr"`
 	Strings    []string          `mapstructure:"strings"`
@@ -360,6 +402,8 @@ func runCfgDecode(r *runner) {
 			in = map[string]**string{key: v}
 		case *int:
 			in = map[string]*int{key: v}
+		case **int:
+			in = map[string]**int{key: v}
 		default:
 			panic(harnessBug("no typed map for " + val))
 		}
@@ -375,7 +419,20 @@ func runCfgDecode(r *runner) {
 	case "ptr-int":
 		out = new(int)
 	}
-	r.call("config.Decode", func() error { return config.Decode(in, out) })
+	r.call("config.Decode", func() error {
+		err := config.Decode(in, out)
+		if t, ok := out.(*cfgTarget); ok && err == nil {
+			switch key {
+			case "string":
+				r.got = t.String
+			case "int":
+				r.got = strconv.Itoa(t.Int)
+			case "duration":
+				r.got = t.Duration.String()
+			}
+		}
+		return err
+	})
 }
 
 func mkTree(tok string) any {
